@@ -264,12 +264,38 @@ def run_open(exe, paths, wd, tag, env, secs=10, asmb=0, fork=1, nprocs=1, timeou
     return answers
 
 
+PAR = max(1, min(4, NPROC // 2))
+
+
 def lean_batch(drv, lines, timeout=1500):
-    p = subprocess.run([drv], input='\n'.join(lines) + '\n', stdout=subprocess.PIPE, stderr=subprocess.PIPE, text=True, timeout=timeout)
-    out = p.stdout.split('\n')
-    if p.returncode != 0 or len(out) < len(lines):
-        raise RuntimeError('lean driver failed rc=%s lines=%d/%d stderr=%s' % (p.returncode, len(out), len(lines), p.stderr[-400:]))
-    return out[:len(lines)]
+    """answers of the Lean driver for the request lines (split over PAR driver processes)"""
+    from concurrent.futures import ThreadPoolExecutor
+
+    def one(part):
+        if not part:
+            return []
+        p = subprocess.run([drv], input='\n'.join(part) + '\n', stdout=subprocess.PIPE, stderr=subprocess.PIPE, text=True, timeout=timeout)
+        out = p.stdout.split('\n')
+        if p.returncode != 0 or len(out) < len(part):
+            raise RuntimeError('lean driver failed rc=%s lines=%d/%d stderr=%s' % (p.returncode, len(out), len(part), p.stderr[-400:]))
+        return out[:len(part)]
+    k = PAR if len(lines) >= 64 else 1
+    n = (len(lines) + k - 1) // k
+    parts = [lines[i * n:(i + 1) * n] for i in range(k)]
+    with ThreadPoolExecutor(max_workers=k) as ex:
+        res = list(ex.map(one, parts))
+    return [l for r in res for l in r]
+
+
+def run_open_par(exe, paths, wd, tag, env, **kw):
+    """run_open (single rank, fork mode) over PAR concurrent harness processes -> answers in request order"""
+    from concurrent.futures import ThreadPoolExecutor
+    k = PAR if len(paths) >= 64 else 1
+    n = (len(paths) + k - 1) // k
+    parts = [paths[i * n:(i + 1) * n] for i in range(k)]
+    with ThreadPoolExecutor(max_workers=k) as ex:
+        res = list(ex.map(lambda a: run_open(exe, a[1], wd, '%s_%d' % (tag, a[0]), env, **kw)[0] if a[1] else [], list(enumerate(parts))))
+    return [l for r in res for l in r]
 
 
 def trailer(ans):
@@ -718,15 +744,15 @@ def run_check(tier, seed):
         stopped = None
         known_sigs = set(k['sig'] for k in V.known)
         unknown = 0
-        for b0 in range(0, len(order), 400):
-            part = order[b0:b0 + 400]
-            a1 = run_open(open_a, [cases[i]['path'] for i in part], wd, 'mal', ASAN_ENV, secs=10, fork=1)[0]
+        for b0 in range(0, len(order), 1200):
+            part = order[b0:b0 + 1200]
+            a1 = run_open_par(open_a, [cases[i]['path'] for i in part], wd, 'mal', ASAN_ENV, secs=10, fork=1)
             for i, a in zip(part, a1):
                 ans[i] = a
                 f = judge(cases[i], a, model[i])[1]
                 if f and f[0] not in known_sigs:
                     unknown += 1
-            if unknown >= 60 and b0 + 400 < len(order):
+            if unknown >= 60 and b0 + 1200 < len(order):
                 stopped = 'stream stopped after %d of %d opens: %d failing inputs with signatures that are not known findings' % (b0 + len(part), len(order), unknown)
                 log('[S4a] ' + stopped)
                 break
